@@ -85,6 +85,8 @@ def run_shard(spec):
                 viol(f"U+{cp:04X} is in the BK table (byte {exp:#x}) but is refused", {"kind": "cp", "cp": cp})
             elif ex.start != 0:
                 viol(f"U+{cp:04X}: error names position {ex.start}, expected 0", {"kind": "cp", "cp": cp})
+        except Exception as ex:  # pylint: disable=broad-except
+            viol(f"U+{cp:04X}: encode raised {type(ex).__name__}: {ex} instead of an encoding error", {"kind": "cp", "cp": cp})
         cnt["codepoints_checked"] += 1
         res["evaluations"] += 1
     res["distinct"].append(f"cp-part{part}:{len(cps)}")
@@ -176,6 +178,8 @@ def run_case(case, cnt=None):
         except UnicodeEncodeError as ex:
             if exp is not None or ex.start != 0:
                 viol(f"U+{case['cp']:04X} refused / position {ex.start}; reference {exp}")
+        except Exception as ex:  # pylint: disable=broad-except
+            viol(f"U+{case['cp']:04X}: encode raised {type(ex).__name__}: {ex}")
     elif case["kind"] == "str":
         s = case["s"]
         first_bad = next((i for i, c in enumerate(s) if c not in ref_chars), None)
